@@ -1,0 +1,14 @@
+//go:build verif
+
+package resource
+
+// Exports for the verification harness (/verif). Compiled only with -tags verif.
+
+// VerifMergeChanges exposes mergeChanges.
+func VerifMergeChanges(a, b CollectionChange) (CollectionChange, bool) { return mergeChanges(a, b) }
+
+// VerifMergeCollectionExcess exposes mergeCollectionExcess.
+func VerifMergeCollectionExcess(in <-chan any) <-chan any { return mergeCollectionExcess(in) }
+
+// VerifInclude exposes (*CollectionChange).include.
+func VerifInclude(c *CollectionChange, f FilterFunc) (*CollectionChange, bool) { return c.include(f) }
